@@ -66,7 +66,10 @@ SinkCases == [kind : {"sink"}, mgr : {"sync", "async", "sync_ref", "async_ref"},
 \* x_addr carries the alternative host name, hosted services and subscription managers the numeric address) and that
 \* second location does not answer TLS (a downgrade on that path only).  An enforcing consumer contacts it under its
 \* client context or not at all.
-SecondCases == [kind : {"second"}, mgr : {"sync", "async", "sync_ref", "async_ref"}, psrv : {"shared", "own"}]
+\* what = "hostile_second": as described; what = "wsdl_elsewhere": every location answers TLS, but a hosted service
+\* announces its WSDL under a network location of its own - fetched under the client context or not at all
+SecondCases == [kind : {"second"}, mgr : {"sync", "async", "sync_ref", "async_ref"}, psrv : {"shared", "own"},
+                what : {"hostile_second", "wsdl_elsewhere"}]
 \* how a bound provider may contact a sink: [tls, ctx]
 SinkContactOK(contact) == contact.tls /\ contact.ctx
 
